@@ -339,7 +339,35 @@ def G_text(rng):
     return ''.join(SEG_POOL(rng) for _ in range(rng.choice([1, 2, 3])))
 
 
+ECHO_TEXTS = ['x/', 'a/b/', '/', 'p q/', 'a+b', "it's", '(x)', 'a,b/', '~u/', '%41/', '\xe9/']
+
+
+def gen_echo_case(rng):
+    """one text quoted under different safe sets within one history: as an extra element (PATH_SEGMENT_SAFE), as an
+    element of a remainder sequence and as a {name} value (PATH_SAFE), as a literal of the pattern (safe='/')"""
+    t = rng.choice(ECHO_TEXTS)
+    lit = t.strip('/') or 'l'
+    pattern = rng.choice(['/e/*rest', '/e/{v:.+}/*rest', '/' + lit.replace('{', '').replace('}', '').replace('*', '') + '/*rest'])
+    kw_with = [['rest', ['q', [['s', 'k'], ['s', t]], rng.choice(['list', 'tuple'])]]]
+    kw_plain = [['rest', ['q', [['s', 'k']], 'tuple']]]
+    if '{v' in pattern:
+        kw_with.append(['v', ['v', ['s', t]]])
+        kw_plain.append(['v', ['v', ['s', 'w']]])
+    ov = {'app_url': None, 'scheme': None, 'host': None, 'port': None, 'query': None, 'anchor': None}
+    a = ['gen', [['s', t]], ov, kw_plain]                 # the text as an extra element
+    b = ['gen', [['s', 'e']], ov, kw_with]                # the text as a value, followed by another element
+    steps = [a, b] if rng.random() < 0.5 else [b, a]
+    if rng.random() < 0.3:
+        steps.append(rng.choice([a, b]))
+    return {'kind': 'req', 'routes': [['target', pattern]], 'target': 'target',
+            'env': {'scheme': 'http', 'http_host': None, 'server_name': 'srv', 'server_port': '80',
+                    'script_name': rng.choice(['', '/app'])},
+            'path_info': '', 'steps': steps, 'meta': {'req': 1, 'echo': 1}}
+
+
 def gen_req_case(rng):
+    if rng.random() < 0.15:
+        return gen_echo_case(rng)
     base = gen_case(rng, True)
     base['target'] = 'target'
     env = base['env']
